@@ -306,3 +306,318 @@ for _m in ('_parse', '_build', '_sizeof'):
         Case('raises', 'raise', lambda pre: t.TRUE, ensures=_renamed_raise, modifies=['stream'] if _m != '_sizeof' else []),
     ], tags=('C18',), sub_seq=False, models=('bytesio',))
     contract_ = None
+
+
+# ================================================================================================ BytesInteger / BitsInteger
+def le_val(a, lo, hi):
+    return t.app('le_val', t.INT, a, lo, hi)
+
+
+from pyvc import structmodel  # noqa  (defines le_val)
+from .specs import be_val, bits_val
+
+def _param_truth(pre, name):
+    eng = pre.eng
+    p = pre.self.fields[name]
+    iface = eng.models.interface
+    H, D = pre.st.ghost['H'], pre.st.ghost['D']
+    c = pre.obj('context').addr
+    const = iface.param_const(eng, p, pre.st)
+    return t.ite(p.callable_t, t.app('truthy', t.BOOL, t.app('ev_val', t.VAL, p.ident, H, D, c)), eng.truth(const, pre.st))
+
+
+def _bi_value(pre, bits=False):
+    """reference value of the integer field at the current position"""
+    o = S_(pre)
+    L = _param_int(pre, 'length')
+    sw = _param_truth(pre, 'swapped')
+    sg = pre.eng.truth(pre.self.fields['signed'], pre.st)
+    if not bits:
+        u = t.ite(sw, le_val(o.buf, o.pos, t.add(o.pos, L)), be_val(o.buf, o.pos, t.add(o.pos, L)))
+        top = t.ite(sw, t.select(o.buf, t.sub(t.add(o.pos, L), t.ONE)), t.select(o.buf, o.pos))
+        return t.ite(t.and_(sg, t.ge(top, I(128))), t.sub(u, pow2(t.mul(I(8), L))), u)
+    raise NotImplementedError
+
+
+def _bytesint_ok(pre):
+    L = _param_int(pre, 'length')
+    return t.and_(t.ge(L, t.ONE), t.le(L, _avail(S_(pre))))
+
+
+def _bytesint_parse_ok(pre, post):
+    o, o2 = S_(pre), post.obj('stream')
+    L = _param_int(pre, 'length')
+    iv, ok = result_int(post)
+    return [('consumes-exactly-length', t.eq(o2.pos, t.add(o.pos, L))),
+            ('value-is-twos-complement-in-stated-byte-order', t.and_(ok, t.eq(iv, _bi_value(pre)))),
+            ('buffer-unchanged', buffer_same(pre, post), ('C17', 'C08'))]
+
+
+def _bytesint_parse_bad(pre, post):
+    L = _param_int(pre, 'length')
+    return [('running-out-of-bytes-is-StreamError', t.implies(t.ge(L, t.ONE), stream_error(post)), ('C06', 'C03'))] + generic_raise(pre, post)
+
+
+fcontract('BytesInteger', '_parse', [
+    Case('ok', 'return', _bytesint_ok, ensures=_bytesint_parse_ok, rkind=rk_dyn, modifies=['stream']),
+    Case('rejects', 'raise', lambda pre: t.not_(_bytesint_ok(pre)), ensures=_bytesint_parse_bad, modifies=['stream']),
+])
+
+fcontract('BytesInteger', '_sizeof', [
+    Case('ok', 'return', lambda pre: t.TRUE,
+         ensures=lambda pre, post: [('size-is-length', t.eq(result_int(post)[0], _param_int(pre, 'length')), ('C05',))], rkind=rk_dyn),
+], tags=('C05',))
+fcontract('BitsInteger', '_sizeof', [
+    Case('ok', 'return', lambda pre: t.TRUE,
+         ensures=lambda pre, post: [('size-is-length', t.eq(result_int(post)[0], _param_int(pre, 'length')), ('C05',))], rkind=rk_dyn),
+], tags=('C05',))
+
+
+def _bytesint_range(pre):
+    x = t.app('toint', t.INT, pre['obj'].t)
+    L = _param_int(pre, 'length')
+    sg = pre.eng.truth(pre.self.fields['signed'], pre.st)
+    half = pow2(t.sub(t.mul(I(8), L), t.ONE))
+    return t.and_(t.app('isint', t.BOOL, pre['obj'].t), t.ge(L, t.ONE),
+                  t.ite(sg, t.and_(t.le(t.neg(half), x), t.lt(x, half)), t.and_(t.le(t.ZERO, x), t.lt(x, pow2(t.mul(I(8), L))))))
+
+
+def _bytesint_build_ok(pre, post):
+    o, o2 = S_(pre), post.obj('stream')
+    L = _param_int(pre, 'length')
+    x = t.app('toint', t.INT, pre['obj'].t)
+    sw = _param_truth(pre, 'swapped')
+    u = t.ite(t.lt(x, t.ZERO), t.add(x, pow2(t.mul(I(8), L))), x)
+    written = t.ite(sw, le_val(o2.buf, o.pos, t.add(o.pos, L)), be_val(o2.buf, o.pos, t.add(o.pos, L)))
+    return [('advances-by-length', t.eq(o2.pos, t.add(o.pos, L))),
+            ('writes-twos-complement-in-stated-byte-order', t.eq(written, u)),
+            ('returns-the-value', t.app('pyeq', t.BOOL, post.eng.to_dyn(post.result, post.st), pre['obj'].t))]
+
+
+fcontract('BytesInteger', '_build', [
+    Case('ok', 'return', _bytesint_range, ensures=_bytesint_build_ok, rkind=rk_dyn, modifies=['stream']),
+    Case('rejects', 'raise', lambda pre: t.not_(_bytesint_range(pre)),
+         ensures=lambda pre, post: [('rejection-is-IntegerError', t.eq(post.exc.cls, I(post.eng.src.exc_code['IntegerError'])), ('C03',))] + generic_raise(pre, post)),
+], lemmas=['pow2_pos'])
+
+
+# ------------------------------------------------------------------------------------------------ BitsInteger
+from .specs import isbits
+from .bitstream import isbits8  # noqa
+
+
+def _region(pre):
+    o = S_(pre)
+    return VBytes(o.buf, o.pos, _param_int(pre, 'length'))
+
+
+def _bitsint_ok(pre):
+    L = _param_int(pre, 'length')
+    sw = _param_truth(pre, 'swapped')
+    return t.and_(t.ge(L, t.ONE), t.le(L, _avail(S_(pre))), t.implies(sw, t.eq(t.pymod(L, I(8)), t.ZERO)))
+
+
+def _bitsint_parse_ok(pre, post):
+    o, o2 = S_(pre), post.obj('stream')
+    L = _param_int(pre, 'length')
+    sw = _param_truth(pre, 'swapped')
+    sg = pre.eng.truth(pre.self.fields['signed'], pre.st)
+    iv, ok = result_int(post)
+    u = bits_val(o.buf, o.pos, t.add(o.pos, L))
+    val = t.ite(t.and_(sg, t.ne(t.select(o.buf, o.pos), t.ZERO)), t.sub(u, pow2(L)), u)
+    return [('consumes-exactly-length', t.eq(o2.pos, t.add(o.pos, L))),
+            ('result-is-int', ok),
+            ('value-is-msb-first-twos-complement', t.implies(t.and_(t.not_(sw), isbits(_region(pre))), t.eq(iv, val))),
+            ('buffer-unchanged', buffer_same(pre, post), ('C17', 'C08'))]
+
+
+fcontract('BitsInteger', '_parse', [
+    Case('ok', 'return', _bitsint_ok, ensures=_bitsint_parse_ok, rkind=rk_dyn, modifies=['stream']),
+    Case('rejects', 'raise', lambda pre: t.not_(_bitsint_ok(pre)),
+         ensures=lambda pre, post: [('running-out-of-bytes-is-StreamError',
+                                     t.implies(t.and_(t.ge(_param_int(pre, 'length'), t.ONE), t.gt(_param_int(pre, 'length'), _avail(S_(pre)))), stream_error(post)), ('C06', 'C03'))] + generic_raise(pre, post),
+         modifies=['stream']),
+], tags=T + ('C10',))
+
+
+def _bitsint_range(pre):
+    x = t.app('toint', t.INT, pre['obj'].t)
+    L = _param_int(pre, 'length')
+    sw = _param_truth(pre, 'swapped')
+    sg = pre.eng.truth(pre.self.fields['signed'], pre.st)
+    half = pow2(t.sub(L, t.ONE))
+    return t.and_(t.app('isint', t.BOOL, pre['obj'].t), t.ge(L, t.ONE), t.implies(sw, t.eq(t.pymod(L, I(8)), t.ZERO)),
+                  t.ite(sg, t.and_(t.le(t.neg(half), x), t.lt(x, half)), t.and_(t.le(t.ZERO, x), t.lt(x, pow2(L)))))
+
+
+def _bitsint_build_ok(pre, post):
+    o, o2 = S_(pre), post.obj('stream')
+    L = _param_int(pre, 'length')
+    x = t.app('toint', t.INT, pre['obj'].t)
+    sw = _param_truth(pre, 'swapped')
+    N = t.ite(t.lt(x, t.ZERO), t.add(x, pow2(L)), x)
+    j = t.var('j!', t.INT)
+    digits = forall_range(j, t.ZERO, L, t.eq(t.select(o2.buf, t.add(o.pos, j)), t.pymod(specs.shr(N, t.sub(t.sub(L, t.ONE), j)), I(2))),
+                          [[t.select(o2.buf, t.add(o.pos, j))]])
+    return [('advances-by-length', t.eq(o2.pos, t.add(o.pos, L))),
+            ('writes-msb-first-twos-complement-digits', t.implies(t.not_(sw), digits)),
+            ('returns-the-value', t.app('pyeq', t.BOOL, post.eng.to_dyn(post.result, post.st), pre['obj'].t))]
+
+
+fcontract('BitsInteger', '_build', [
+    Case('ok', 'return', _bitsint_range, ensures=_bitsint_build_ok, rkind=rk_dyn, modifies=['stream']),
+    Case('rejects', 'raise', lambda pre: t.not_(_bitsint_range(pre)),
+         ensures=lambda pre, post: [('rejection-is-IntegerError', t.eq(post.exc.cls, I(post.eng.src.exc_code['IntegerError'])), ('C03',))] + generic_raise(pre, post)),
+], tags=T + ('C10',), lemmas=['pow2_pos'])
+
+
+# ------------------------------------------------------------------------------------------------ Bytes / GreedyBytes build
+def _bytes_build_guard(pre):
+    """accepted values: bytes of exactly `length` bytes (ints and bytearrays are converted first; see the evidence for what is covered)"""
+    v = pre['obj'].t
+    L = _param_int(pre, 'length')
+    return t.and_(t.app('(_ is VBytes)', t.BOOL, v), t.ge(L, t.ZERO), t.eq(t.app('blen', t.INT, v), L))
+
+
+def _bytes_build_ok(pre, post):
+    o, o2 = S_(pre), post.obj('stream')
+    v = pre['obj'].t
+    L = _param_int(pre, 'length')
+    i = t.var('i!', t.INT)
+    written = forall_range(i, t.ZERO, L, t.eq(t.select(o2.buf, t.add(o.pos, i)), t.select(t.app('barr', t.ARR, v), t.add(t.app('boff', t.INT, v), i))),
+                           [[t.select(o2.buf, t.add(o.pos, i))]])
+    return [('advances-by-length', t.eq(o2.pos, t.add(o.pos, L))), ('writes-the-bytes', written),
+            ('returns-the-bytes', t.app('pyeq', t.BOOL, post.eng.to_dyn(post.result, post.st), v))]
+
+
+def _bytes_build_bad(pre, post):
+    v = pre['obj'].t
+    isb = t.app('(_ is VBytes)', t.BOOL, v)
+    return [('wrong-length-bytes-is-StreamError', t.implies(isb, stream_error(post)), ('C03',)),
+            ('error-path-extends-path-argument', t.implies(post.eng.exc_sub_term(post.exc.cls, 'ConstructError'), path_clause(pre, post)), ('C18',))]
+
+
+fcontract('Bytes', '_build', [
+    Case('ok-bytes', 'return', _bytes_build_guard, ensures=_bytes_build_ok, rkind=rk_dyn, modifies=['stream']),
+    Case('other-values', 'return', lambda pre: t.not_(t.app('(_ is VBytes)', t.BOOL, pre['obj'].t)), rkind=rk_dyn, modifies=['stream']),
+    Case('rejects', 'raise', lambda pre: t.not_(_bytes_build_guard(pre)), ensures=_bytes_build_bad, modifies=['stream']),
+])
+
+
+def _gb_build_ok(pre, post):
+    o, o2 = S_(pre), post.obj('stream')
+    v = pre['obj'].t
+    L = t.app('blen', t.INT, v)
+    i = t.var('i!', t.INT)
+    written = forall_range(i, t.ZERO, L, t.eq(t.select(o2.buf, t.add(o.pos, i)), t.select(t.app('barr', t.ARR, v), t.add(t.app('boff', t.INT, v), i))),
+                           [[t.select(o2.buf, t.add(o.pos, i))]])
+    return [('advances-by-len', t.eq(o2.pos, t.add(o.pos, L))), ('writes-the-bytes', written),
+            ('returns-the-bytes', t.app('pyeq', t.BOOL, post.eng.to_dyn(post.result, post.st), v))]
+
+
+fcontract('GreedyBytes', '_build', [
+    Case('ok-bytes', 'return', lambda pre: t.app('(_ is VBytes)', t.BOOL, pre['obj'].t), ensures=_gb_build_ok, rkind=rk_dyn, modifies=['stream']),
+    Case('other-values', 'return', lambda pre: t.not_(t.app('(_ is VBytes)', t.BOOL, pre['obj'].t)), rkind=rk_dyn, modifies=['stream']),
+    Case('rejects', 'raise', lambda pre: t.not_(t.app('(_ is VBytes)', t.BOOL, pre['obj'].t)),
+         ensures=lambda pre, post: [('error-path-extends-path-argument', t.implies(post.eng.exc_sub_term(post.exc.cls, 'ConstructError'), path_clause(pre, post)), ('C18',))], modifies=['stream']),
+])
+
+
+# ------------------------------------------------------------------------------------------------ FormatField (one contract instance per format)
+FMT_VARIANTS = [e + f for e in '<>=' for f in 'BHLQbhlqefd?']
+
+
+def _fmt_of(view):
+    f = view.self.fields['fmtstr']
+    return f.t.args[0]
+
+
+def _ff_value(pre):
+    o = S_(pre)
+    fmt = _fmt_of(pre)
+    ch = fmt[1]
+    w = structmodel.SIZES[ch]
+    little = structmodel.little(fmt[0])
+    if ch == '?':
+        return 'bool', t.ne(t.select(o.buf, o.pos), t.ZERO)
+    if ch in 'efd':
+        code = I({'e': 2, 'f': 4, 'd': 8}[ch] * 10 + (1 if little else 0))
+        return 'val', t.app('f_dec', t.VAL, code, o.buf, o.pos)
+    u = (le_val if little else be_val)(o.buf, o.pos, t.add(o.pos, I(w)))
+    if ch.islower():
+        top = t.select(o.buf, t.add(o.pos, I(w - 1))) if little else t.select(o.buf, o.pos)
+        return 'int', t.ite(t.ge(top, I(128)), t.sub(u, I(2 ** (8 * w))), u)
+    return 'int', u
+
+
+def _ff_parse_ok(pre, post):
+    o, o2 = S_(pre), post.obj('stream')
+    w = structmodel.SIZES[_fmt_of(pre)[1]]
+    kind, val = _ff_value(pre)
+    r = post.result
+    if kind == 'int':
+        iv, ok = post.eng.as_int(r, post.st)
+        vc = t.and_(ok, t.eq(iv, val)) if iv is not None else t.FALSE
+    elif kind == 'bool':
+        vc = t.eq(post.eng.truth(r, post.st), val) if isinstance(r, VBool) else t.FALSE
+    else:
+        vc = t.eq(post.eng.to_dyn(r, post.st), val)
+    return [('consumes-the-format-width', t.eq(o2.pos, t.add(o.pos, I(w)))), ('value-per-format', vc),
+            ('buffer-unchanged', buffer_same(pre, post), ('C17', 'C08'))]
+
+
+def _ff_width(pre):
+    return I(structmodel.SIZES[_fmt_of(pre)[1]])
+
+
+_c = fcontract('FormatField', '_parse', [
+    Case('ok', 'return', lambda pre: t.le(_ff_width(pre), _avail(S_(pre))), ensures=_ff_parse_ok, rkind=rk_dyn, modifies=['stream']),
+    Case('short', 'raise', lambda pre: t.gt(_ff_width(pre), _avail(S_(pre))),
+         ensures=lambda pre, post: [('running-out-of-bytes-is-StreamError', stream_error(post), ('C06', 'C03'))] + generic_raise(pre, post), modifies=['stream']),
+])
+_c.variants = FMT_VARIANTS
+
+
+def _ff_build_range(pre):
+    fmt = _fmt_of(pre)
+    ch = fmt[1]
+    w = structmodel.SIZES[ch]
+    v = pre['obj'].t
+    if ch == '?':
+        return t.TRUE
+    if ch in 'efd':
+        code = I({'e': 2, 'f': 4, 'd': 8}[ch] * 10 + (1 if structmodel.little(fmt[0]) else 0))
+        return t.app('f_packable', t.BOOL, code, v)
+    lo, hi = (-(2 ** (8 * w - 1)), 2 ** (8 * w - 1) - 1) if ch.islower() else (0, 2 ** (8 * w) - 1)
+    x = t.app('toint', t.INT, v)
+    return t.and_(t.app('isint', t.BOOL, v), t.le(I(lo), x), t.le(x, I(hi)))
+
+
+def _ff_build_ok(pre, post):
+    o, o2 = S_(pre), post.obj('stream')
+    fmt = _fmt_of(pre)
+    ch = fmt[1]
+    w = structmodel.SIZES[ch]
+    v = pre['obj'].t
+    cl = [('advances-by-the-format-width', t.eq(o2.pos, t.add(o.pos, I(w))))]
+    if ch == '?':
+        cl.append(('writes-01-or-00', t.eq(t.select(o2.buf, o.pos), t.ite(t.app('truthy', t.BOOL, v), t.ONE, t.ZERO))))
+    elif ch not in 'efd':
+        x = t.app('toint', t.INT, v)
+        u = t.ite(t.lt(x, t.ZERO), t.add(x, I(2 ** (8 * w))), x)
+        fn = le_val if structmodel.little(fmt[0]) else be_val
+        cl.append(('writes-twos-complement-in-stated-byte-order', t.eq(fn(o2.buf, o.pos, t.add(o.pos, I(w))), u)))
+    cl.append(('returns-the-value', t.eq(post.eng.to_dyn(post.result, post.st), v)))
+    return cl
+
+
+_c = fcontract('FormatField', '_build', [
+    Case('ok', 'return', _ff_build_range, ensures=_ff_build_ok, rkind=rk_dyn, modifies=['stream']),
+    Case('rejects', 'raise', lambda pre: t.not_(_ff_build_range(pre)),
+         ensures=lambda pre, post: [('rejection-is-FormatFieldError', t.eq(post.exc.cls, I(post.eng.src.exc_code['FormatFieldError'])), ('C03',))] + generic_raise(pre, post)),
+])
+_c.variants = FMT_VARIANTS
+_c = fcontract('FormatField', '_sizeof', [
+    Case('ok', 'return', lambda pre: t.TRUE, ensures=lambda pre, post: [('size-is-format-width', t.eq(result_int(post)[0], _ff_width(pre)), ('C05',))], rkind=rk_dyn)],
+    tags=('C05',))
+_c.variants = FMT_VARIANTS
